@@ -88,6 +88,10 @@ func main() {
 		footprintMain(os.Args[2])
 		return
 	}
+	if len(os.Args) >= 3 && os.Args[1] == "-gosrc" {
+		gosrcMain(os.Args[2])
+		return
+	}
 	if len(os.Args) >= 3 && os.Args[1] == "-tables" {
 		tablesMain(os.Args[2])
 		return
